@@ -1102,13 +1102,19 @@ package engine
 
 //@ -- the constructors a double-quoted literal goes through (parser) are the ones a Go string goes through (termOf)
 //@ func CharList
-//@   trusted
+//@   property C02
 //@   pure
 //@   deterministic
+//@   modifies nothing
+//@   ensures[the-empty-string-is-the-empty-list] len(s) == 0 ==> result == atomEmptyList
+//@   ensures[a-character-list-otherwise] len(s) > 0 ==> result is charList && (result as charList) == s
 //@ func CodeList
-//@   trusted
+//@   property C02
 //@   pure
 //@   deterministic
+//@   modifies nothing
+//@   ensures[the-empty-string-is-the-empty-list] len(s) == 0 ==> result == atomEmptyList
+//@   ensures[a-code-list-otherwise] len(s) > 0 ==> result is codeList && (result as codeList) == s
 //@ func NewAtom
 //@   trusted
 //@   pure
@@ -1674,3 +1680,85 @@ package engine
 //@       Compound.Arity(rx as Compound) == Compound.Arity(ry as Compound) && !result1 ==> called(aenv) && !aok && result0 == aenv
 //@   ensures[symmetric-compound] rx is Compound && ry is Variable ==> result0 == senv && result1 == sok
 //@   ensures[symmetric-atomic] !(rx is Variable) && !(rx is Compound) && ry is Variable ==> result0 == tenv && result1 == tok
+
+//@ ---------------------------------------------------------------- every list representation denotes the same list (C02)
+
+//@ type charList invariant[non-empty] len(self) > 0
+//@ type codeList invariant[non-empty] len(self) > 0
+
+//@ spec abstract firstRune(s string) int
+//@ spec abstract firstSize(s string) int
+
+//@ extern unicode/utf8.DecodeRuneInString
+//@   pure
+//@   ensures result0 == firstRune(s) && result1 == firstSize(s)
+//@   ensures len(s) > 0 ==> 1 <= result1 && result1 <= len(s) && result1 <= 4
+//@   ensures len(s) == 0 ==> result1 == 0 && result0 == 65533
+//@   ensures 0 <= result0 && result0 <= 1114111
+
+//@ func charList.Functor
+//@   property C02
+//@   ensures[a-list-cell] result == atomDot
+//@ func charList.Arity
+//@   property C02
+//@   ensures[a-list-cell] result == 2
+//@ func charList.Arg
+//@   property C02
+//@   requires n == 0 || n == 1
+//@   modifies nothing
+//@   ensures[the-head-is-the-first-character] n == 0 ==> result is Atom && (result as Atom) == firstRune(c)
+//@   ensures[the-tail-of-the-last-character-is-the-empty-list] n == 1 && firstSize(c) == len(c) ==> result == atomEmptyList
+//@   ensures[the-tail-is-the-rest-of-the-string] n == 1 && firstSize(c) != len(c) ==> result is charList && len(result as charList) == len(c) - firstSize(c)
+
+//@ func codeList.Functor
+//@   property C02
+//@   ensures[a-list-cell] result == atomDot
+//@ func codeList.Arity
+//@   property C02
+//@   ensures[a-list-cell] result == 2
+//@ func codeList.Arg
+//@   property C02
+//@   requires n == 0 || n == 1
+//@   modifies nothing
+//@   ensures[the-head-is-the-first-character-code] n == 0 ==> result is Integer && (result as Integer) == firstRune(c)
+//@   ensures[the-tail-of-the-last-character-is-the-empty-list] n == 1 && firstSize(c) == len(c) ==> result == atomEmptyList
+//@   ensures[the-tail-is-the-rest-of-the-string] n == 1 && firstSize(c) != len(c) ==> result is codeList && len(result as codeList) == len(c) - firstSize(c)
+
+//@ func list.Functor
+//@   property C02
+//@   ensures[a-list-cell] result == atomDot
+//@ func list.Arity
+//@   property C02
+//@   ensures[a-list-cell] result == 2
+//@ func list.Arg
+//@   property C02
+//@   requires len(l) > 0 && (n == 0 || n == 1)
+//@   modifies nothing
+//@   ensures[the-head-is-the-first-element] n == 0 ==> result == l[0]
+//@   ensures[the-tail-of-the-last-element-is-the-empty-list] n == 1 && len(l) == 1 ==> result == atomEmptyList
+//@   ensures[the-tail-is-the-rest-of-the-slice] n == 1 && len(l) > 1 ==> result is list && len(result as list) == len(l) - 1 &&
+//@       forall j int :: 0 <= j && j < len(l) - 1 ==> (result as list)[j] == l[j + 1]
+
+//@ func List
+//@   property C02
+//@   modifies nothing
+//@   ensures[no-elements-is-the-empty-list] len(ts) == 0 ==> result == atomEmptyList
+//@   ensures[otherwise-the-elements-in-order] len(ts) > 0 ==> result is list && (result as list) == ts
+
+//@ func PartialList
+//@   property C02
+//@   modifies nothing
+//@   ensures[no-elements-is-the-tail-itself] len(ts) == 0 ==> result == tail
+//@   ensures[otherwise-the-elements-in-order-then-the-tail] len(ts) > 0 ==> result is *partial && (result as *partial).Compound is list &&
+//@       ((result as *partial).Compound as list) == ts && *((result as *partial).tail) == tail
+
+//@ func (*partial).Arg
+//@   property C02
+//@   nosafety
+//@   requires p != nil && p.Compound != nil && p.tail != nil
+//@   modifies nothing
+//@   let inner = Compound.Arg(p.Compound, n)
+//@   ensures[everything-but-the-tail-of-a-list-cell-is-the-prefix-s] !(Compound.Functor(p.Compound) == atomDot && Compound.Arity(p.Compound) == 2 && n == 1) ==> result == inner
+//@   ensures[the-end-of-the-prefix-continues-with-the-tail] Compound.Functor(p.Compound) == atomDot && Compound.Arity(p.Compound) == 2 && n == 1 && inner == atomEmptyList ==> result == *(p.tail)
+//@   ensures[the-rest-of-the-prefix-shares-the-tail] Compound.Functor(p.Compound) == atomDot && Compound.Arity(p.Compound) == 2 && n == 1 && inner != atomEmptyList ==>
+//@       result is *partial && (result as *partial).Compound == (inner as Compound) && (result as *partial).tail == p.tail
